@@ -14,8 +14,9 @@ LEVEL = "exploration"
 RULE = ("Hypothesis draws TWO configurations (depth 1-6 x width 1-4 with depth*width <= 24, the five "
         "store algorithms, two namespaces), three pids and two format ids from the adversarial "
         "identifier generator of C18 (plus plain ones), and contents; one process then runs the same "
-        "fixed script on a store of each configuration (store 2 pids sharing one content + 1 other, "
-        "metadata in 2 formats + default, a reopen, one delete). Oracle: an independent "
+        "fixed script on a store of each configuration (3 pids - one a suffix, one an extension of another - "
+        "sharing one content + 1 other, metadata in 2 formats + default, a reopen, delete of the other and of "
+        "the suffix pid). Oracle: an independent "
         "implementation of the README layout (own sharding, own hashing of UTF-8 strings, own "
         "expected file contents: pid ref = cid without newline, cid list = one newline-terminated "
         "pid per line) predicts the COMPLETE set of relative paths and file contents under each "
@@ -47,6 +48,7 @@ def _case(draw, tier):
             ids.append(s)
     if draw(st.booleans()):
         ids[1] = draw(st.sampled_from(["x/", "pre:", "0"])) + ids[0]   # ids[0] is a suffix of ids[1]
+    ids.append(ids[1] + draw(st.sampled_from([".2", "/v2", "x"])))    # ids[3] extends ids[1]
     fmts = [draw(st.sampled_from(["http://www.ns.test/v1", "c", "fmt/../x"])),
             draw(st.one_of(st.just("bc"), c18._base().filter(lambda s: len(s) < 200)))]
     if fmts[0] == fmts[1]:
@@ -61,17 +63,21 @@ def strategy(tier):
 
 
 def _script(store_factory, ids, fmts, files):
+    """ids[0] is (often) a suffix of ids[1]; ids[3] extends ids[1].  ids[0], ids[1], ids[3] share content X."""
     s = store_factory()
     outs = []
     outs.append(call(s.store_object, ids[0], files[0]))
     outs.append(call(s.store_object, ids[1], files[0]))
     outs.append(call(s.store_object, ids[2], files[1]))
+    outs.append(call(s.store_object, ids[3], files[0]))
     outs.append(call(s.store_metadata, ids[0], files[2], fmts[0]))
     outs.append(call(s.store_metadata, ids[0], files[3]))
+    outs.append(call(s.store_metadata, ids[1], files[3]))
     s = store_factory()
     outs.append(call(s.store_metadata, ids[1], files[2], fmts[1]))
     outs.append(call(s.store_metadata, ids[2], files[2], fmts[0]))
     outs.append(call(s.delete_object, ids[2]))
+    outs.append(call(s.delete_object, ids[0]))
     return outs
 
 
@@ -79,11 +85,10 @@ def _expected(cfg, ids, fmts, X, Y, d0, d1):
     exp = {}
     cidx = cfg.digest(X)
     exp[cfg.obj_rel(cidx)] = X
-    exp[cfg.pidref_rel(ids[0])] = cidx.encode()
     exp[cfg.pidref_rel(ids[1])] = cidx.encode()
-    exp[cfg.cidref_rel(cidx)] = ("cidlist", sorted([ids[0], ids[1]]))
-    exp[cfg.meta_rel(ids[0], fmts[0])] = d0
-    exp[cfg.meta_rel(ids[0], None)] = d1
+    exp[cfg.pidref_rel(ids[3])] = cidx.encode()
+    exp[cfg.cidref_rel(cidx)] = ("cidlist", sorted([ids[1], ids[3]]))
+    exp[cfg.meta_rel(ids[1], None)] = d1
     exp[cfg.meta_rel(ids[1], fmts[1])] = d0
     return exp
 
